@@ -293,3 +293,43 @@ func DeathKey(s string) string {
 	}
 	return "process-exit"
 }
+
+// TraceTwin returns a copy of c whose data carries "log":"trace": RunLevels runs it in workers that have
+// VERIF_LAL_LOG=trace in their environment (the server under test then logs at trace level).
+func TraceTwin(c Case) Case {
+	var m map[string]interface{}
+	if json.Unmarshal(c.Data, &m) != nil {
+		return c
+	}
+	m["log"] = "trace"
+	d, _ := json.Marshal(m)
+	return Case{Key: c.Key, Data: d}
+}
+
+// IsTrace tells whether c is a trace-level twin.
+func IsTrace(c Case) bool {
+	var m struct {
+		Log string `json:"log"`
+	}
+	json.Unmarshal(c.Data, &m)
+	return m.Log == "trace"
+}
+
+// RunLevels runs the plain cases, then the trace-level twins, each group in workers of its own.
+func RunLevels(cases []Case, nworkers int, perCase time.Duration, stop func() bool, onOutcome func(o Outcome)) (executed int) {
+	var plain, trace []Case
+	for _, c := range cases {
+		if IsTrace(c) {
+			trace = append(trace, c)
+		} else {
+			plain = append(plain, c)
+		}
+	}
+	if len(plain) > 0 {
+		executed += Run(plain, nworkers, perCase, nil, stop, onOutcome)
+	}
+	if len(trace) > 0 {
+		executed += Run(trace, nworkers, perCase, []string{"VERIF_LAL_LOG=trace"}, stop, onOutcome)
+	}
+	return
+}
